@@ -112,7 +112,8 @@ class Walker(object):
             The sampled object.
         """
         choice_from_table = random.choice(self._table)
-        if random.uniform(0.0, self._mean_rate) <= choice_from_table[0].rate:
+        # The comparison is strict so that an item with a vanishing rate is never sampled (the draw may return 0.0).
+        if random.uniform(0.0, self._mean_rate) < choice_from_table[0].rate or len(choice_from_table) == 1:
             return choice_from_table[0].item
         else:
             return choice_from_table[1].item
